@@ -222,6 +222,11 @@ def _worker_main(widx: int, conn, sim_name: str, prop: str, cfg: dict, stop_flag
                 c = dict(cfg)
                 c["keep_events"] = False
                 res = execute(sim, prop, seed, spec_seed, c, replay=tr)
+                res_b = execute(sim, prop, seed, spec_seed, c, replay=tr)
+                if not all(any(v["signature"] == signature for v in r_["violations"]) for r_ in (res, res_b)) or res["digest"] != res_b["digest"]:
+                    # a minimised trace that does not replay stably is worthless: keep the recorded one
+                    tr = trace
+                    res = execute(sim, prop, seed, spec_seed, c, replay=tr)
                 faulthandler.cancel_dump_traceback_later()
                 conn.send(("shrunk", seed, tr, n, res))
     except (EOFError, BrokenPipeError, KeyboardInterrupt):
